@@ -101,3 +101,10 @@ impl Name {
 		non_generic_inner(fully_qualified_name.into())
 	}
 }
+
+/// Verification harness mount point (only compiled under `cargo kani`; source lives outside this repository)
+#[cfg(kani)]
+#[allow(unused, missing_docs)]
+pub(crate) mod verif {
+	include!(concat!(env!("SAF_VERIF"), "/schema_nodes.rs"));
+}
